@@ -95,3 +95,12 @@ for m in CORPUS:
     if m.id == 'c15-step-save-after':
         m.expect = [('C15.S', 'saves-clones-before-proposal')]
         m.more = [dict(old='self.saved_tensors = [parameter.tensor.clone() for parameter in self.parameters]', new='pass', nth=0)]
+CORPUS += [
+    Mut('c15-sliding-window-redrawn-until-inside-the-support', 'torchtree/inference/mcmc/operator.py', 'SlidingWindowOperator._step', 'return torch.tensor(…',
+        "while p[index2].item() < 0.0:\n    p[index2] += self._width * (torch.rand(1).item() - 0.5)\nreturn torch.tensor(0.0, device=self.parameters[0].device, dtype=self.parameters[0].dtype)",
+        expect=[('C15.Q', 'SlidingWindowOperator._step::proposal-is-not-redrawn-until-it-fits')]),
+    Mut('c15-logger-buffers-live-tensors', 'torchtree/core/logger.py', 'Logger.log', 'row.extend(obj.tensor.detach().cpu().tolist())',
+        "row.append(obj.tensor.detach())\nself._rows = getattr(self, '_rows', [])\nself._rows.append(row)", expect=[('C15.R', 'loggers::Logger.log::rows-are-materialised-when-they-are-logged')]),
+    Mut('c15-benign-logger-buffers-copied-rows', 'torchtree/core/logger.py', 'Logger.log', 'row.extend(obj.tensor.detach().cpu().tolist())',
+        "row.extend(obj.tensor.detach().cpu().tolist())\nself._rows = getattr(self, '_rows', [])\nself._rows.append(list(row))", benign=True),
+]
